@@ -65,9 +65,33 @@ func load(dir string) (*Repo, error) {
 	return r, nil
 }
 
+// File returns the declarations of the PACKAGE the named file belongs to, as one file: a declaration is found wherever
+// in its package it lives, so that moving it to another (or a new) file of the package changes no fact. (The named file
+// itself need not exist any more.) Positions, and therefore Text, are those of the real files.
+func (r *Repo) File(name string) *ast.File {
+	dir := filepath.Dir(name)
+	var names []string
+	for rel := range r.Files {
+		if filepath.Dir(rel) == dir {
+			names = append(names, rel)
+		}
+	}
+	if len(names) == 0 {
+		return nil
+	}
+	sort.Strings(names)
+	merged := &ast.File{Name: r.Files[names[0]].Name}
+	for _, rel := range names {
+		merged.Decls = append(merged.Decls, r.Files[rel].Decls...)
+		merged.Imports = append(merged.Imports, r.Files[rel].Imports...)
+		merged.Comments = append(merged.Comments, r.Files[rel].Comments...)
+	}
+	return merged
+}
+
 // FuncDecl finds a function or method (recv == "" for functions; recv is the receiver type name without '*').
 func (r *Repo) FuncDecl(file, recv, name string) *ast.FuncDecl {
-	f := r.Files[file]
+	f := r.File(file)
 	if f == nil {
 		return nil
 	}
